@@ -8,7 +8,10 @@ MANIFEST = {
             "invariant: every object is a system actor, has OnLaunch at the head of its mailbox, has handled OnLaunch with its current "
             "instance, or is terminated) — an incarnation handles nothing but OnRestarted before its OnLaunch; C03_terminated_is_final, "
             "C03_terminated_handles_nothing, C03_nothing_handled_after_terminated — nothing at all after its own OnTerminated, a restart "
-            "cannot revive it. C03_restart_completes_in_order (Kernel/Restart.v): the step that completes a restart shows exactly four "
+            "cannot revive it; C03_terminate_before_terminated (Kernel/Terminate.v, trace-indexed invariant) — an incarnation whose status becomes "
+            "Terminated has handled OnTerminate in an earlier step or in that very step; C03_instance_below_provider_count, "
+            "C03_instance_numbers_only_grow, C03_restart_installs_a_fresh_instance (Kernel/Fresh.v) — the instance a completed restart installs "
+            "is strictly greater than the one it replaces. C03_restart_completes_in_order (Kernel/Restart.v): the step that completes a restart shows exactly four "
             "Handled observations, in order — OnTerminate, OnTerminated by the old instance number, OnRestarted, OnLaunch by the number the "
             "provider hands out in that step — whatever the handlers do, and leaves the actor alive. "
             "C03_restarting_actor_is_suspended_partial / C03_restarting_actor_handles_no_user_message_partial (Kernel/Held.v; hypotheses of the "
@@ -17,8 +20,8 @@ MANIFEST = {
             "(with C04_own_step_ending_suspended_is_waiting): between OnRestarting and that step the actor is waiting and stays so through "
             "every step without a marker for its address, provided no resume request is pending; C03_resume_request_ignored_unless_alive: a "
             "supervisor's Resume decision, which travels as a queued request since fix 925aa8b, is ignored by a restarting actor.",
-    "note": "Partial: 'OnTerminate before own OnTerminated' and the freshness of the new instance number are per-run (correspondence, "
-            "monitors), not theorems; the restarting-actor invariant carries the hierarchy hypotheses on the role table. The invariant is the "
+    "note": "Partial: the order of OnTerminate and OnTerminated INSIDE one step (a childless actor terminating within the step that handles "
+            "the request) is per-run (correspondence, monitors), not a theorem; the restarting-actor invariant carries the hierarchy hypotheses on the role table. The invariant is the "
             "statement whose proof attempt exposed defect 925aa8b (the model produced the refuting history by vm_compute, harness/cmd/kscript "
             "replayed it on the implementation). C03_launch_first is about the model, whose spawn registers the address and queues OnLaunch in one step; in the code "
             "these were two steps of ActorOf with a window in between (a message sent to the new address was handled before OnLaunch: "
